@@ -20,6 +20,7 @@ func main() {
 	toolboxSections(r)
 	conjSections(r)
 	mcSections(r)
+	forkSections(r)
 
 	// clauses claimed (property statement) and the counters they rest on
 	for _, k := range []string{"translate", "scale", "vecscale", "matrix", "rotation", "joined"} {
